@@ -4,7 +4,7 @@ import itertools
 import driver
 import gen_paths as G
 from core import rng
-from run_suite import canon_vars, has_recursion_error
+from run_suite import canon_vars, has_cycle, has_recursion_error
 
 
 def gen_member(r):
@@ -76,6 +76,9 @@ def case_group(case):
         if out.get("raised") or has_recursion_error(out):
             res["unmodelled"] = out.get("raised") or "RecursionError"
             return res
+        if has_cycle(out.get("variables")):
+            res["unmodelled"] = "self-containing variable (not JSON-representable, cannot be archived)"
+            return res
         alone.append(out)
     for order in orders:
         ms = [members[k] for k in order]
@@ -104,35 +107,20 @@ def case_group(case):
                                               "order": order, "alone": a[key], "group": g[key], "csvpath": member_text(ms[pos])})
             # caller lines of a breadth-first run
             if method in ("collect_by_line", "next_by_line"):
-                per = []
-                for i, rec in enumerate(recs):
-                    dec = []
-                    for k in order:
-                        sc = alone[k]["script"]
-                        calls = alone[k]["calls"]
-                        # decision of member k on record i (None = not running / not offered)
-                        d = None
-                        for c, e in zip(calls, sc):
-                            if c["idx"] == i and not c["blank_last"]:
-                                d = e["b"]
-                        ran = any(c["idx"] >= i for c in calls) or (calls and calls[-1]["idx"] >= i)
-                        dec.append((d, rec in (alone[k]["lines"] or [])))
-                    per.append(dec)
-                # independent statement: line i is yielded iff any (all) of the members that are
-                # still running return it
+                # independent statement: record i is yielded iff any (all, with if_all_agree) of the
+                # members that are still running return it.  Each member's own decisions and stop point
+                # come from its run alone (positions yielded / records read, via the run-loop model
+                # under the member's recorded matcher, which is compared with the real run below)
+                from run_suite import compare_with_model, model_run
+
+                solo = []
+                for k in order:
+                    res["disagree"] += compare_with_model(f"member {k} alone", members[k]["scan"], recs, "collect", alone[k])
+                    mr = model_run(members[k]["scan"], recs, "collect", alone[k])
+                    solo.append((set(mr.get("yielded", [])), mr.get("seen", 0)))
                 want = []
                 for i, rec in enumerate(recs):
-                    running = []
-                    for k in order:
-                        calls = alone[k]["calls"]
-                        last = alone[k]["calls"][-1]["idx"] if calls else -1
-                        stopped_at = last if alone[k]["flags"]["stopped"] and (not calls or True) else None
-                        # a member is stepped on record i iff it was not stopped before i
-                        stepped = (stopped_at is None) or (i <= stopped_at) or not alone[k]["flags"]["stopped"]
-                        if not stepped:
-                            continue
-                        returned = any(c["idx"] == i and not c["blank_last"] and e["b"] for c, e in zip(calls, alone[k]["script"]))
-                        running.append(returned)
+                    running = [(i in y) for (y, seen) in solo if i < seen]
                     if not running:
                         break
                     keep = all(running) if case["if_all_agree"] else any(running)
